@@ -158,6 +158,7 @@ class Rules:
             self.r_lookbehind_datalines(I, seg)
             self.r_groups(I, seg)
             self.r_preconsume(I, seg)
+            self.r_macrosep(I, seg)
 
     # -- R-NONEMPTY and R-ERR-PAIR ---------------------------------------------------------------
     MAY_BE_EMPTY = {"EOF", "MacroSep", "MacroStringEmpty", "SEMI", "LPAREN", "RPAREN", "ASSIGN", "COMMA", "FSLASH",
@@ -597,6 +598,35 @@ class Rules:
                  "%s consumes the first character itself before %s: %s" % (short_fn(seg.name), callee, e.d.get("why")) if ok else
                  "%s consumes the first character of the token itself and then calls %s, but from the token start %s; "
                  "conditions: %s" % (short_fn(seg.name), callee, e.d.get("why"), "; ".join(seg.st.conds[-4:])[:240]))
+
+    # -- R-MACROSEP-EMIT (emission sites): a MacroSep is only emitted on a path where needs_macro_sep said yes -----
+    def r_macrosep(self, I, seg):
+        st = seg.st
+        evs = seg.events
+        for idx in range(seg.start, len(evs)):
+            e = evs[idx]
+            if e.kind not in ("emit", "insert_token") or e.d.get("owner") != seg.name:
+                continue
+            ts = variant_set(I, st, e.d["type"])
+            if ts != {"MacroSep"}:
+                continue
+            how = "emit_token" if e.kind == "emit" else "insert_token"
+            said_yes = False
+            for x in evs[seg.start:idx]:
+                if x.kind == "leave" and x.d.get("callee") == "macro::needs_macro_sep":
+                    r = x.d.get("ret")
+                    said_yes = isinstance(r, Const) and r.v is True
+            key = "%s|%s|guard" % (short_fn(seg.name), how)
+            self.bump("R-MACROSEP-EMIT", "emissions", key)
+            I.ob("R-MACROSEP-EMIT", key, said_yes, self.sites.where(e),
+                 "MacroSep is produced only on paths where needs_macro_sep(..) returned true" if said_yes else
+                 "a MacroSep is emitted / inserted on a path where needs_macro_sep was not consulted or returned false: the "
+                 "placement rule (never after ';', a label, %then, %else) is bypassed; conditions: " + "; ".join(st.conds[-3:])[:200])
+            cs = variant_set(I, st, e.d["channel"]) or set()
+            pl = e.d.get("payload")
+            okc = cs == {"DEFAULT"} and isinstance(pl, Enum) and pl.variant == "None"
+            I.ob("R-MACROSEP-EMIT", "%s|%s|args" % (short_fn(seg.name), how), okc, self.sites.where(e),
+                 "MacroSep goes to the DEFAULT channel without payload" if okc else "MacroSep produced with channel %s payload %r" % (sorted(cs), pl))
 
     # -- R-GROUP: tokens that only exist as a group are emitted together, in one step ---------------------
     def r_groups(self, I, seg):
@@ -1770,4 +1800,98 @@ def frame_balance_obs(summaries):
     for k in FRAME_KW:
         if k not in seen_kw:
             ob("%s|anchor" % k, False, "no lex_token path emits %s" % k)
+    return list(obs.values()), n
+
+
+# -- R-BOM-ORDER (LEA): what Lexer::new does with a leading byte-order mark -----------------------------------------
+def _remaining_len_pos(v):
+    """(stream, pos) of the cursor snapshot `total - remaining_len(stream, pos)` inside a byte-offset value."""
+    r = repr(v.key()) if hasattr(v, "key") else ""
+    m = re.search(r"\('X', 'remaining_len', \('C', 'str', '([^']+)'\), \('C', 'int', (\d+)\)\)", r)
+    return (m.group(1), int(m.group(2))) if m else None
+
+
+def bom_rules(I, outs):
+    """Paths of Lexer::new: at most one character is skipped and it is the BOM; the first line and the first token
+    start are snapshots taken *after* that skip (byte offset) and count exactly the skipped characters (char offset);
+    without a BOM nothing is skipped."""
+    obs = {}
+
+    def ob(key, ok, detail, site=""):
+        cur = obs.get(key)
+        if cur is None or (cur["ok"] and not ok):
+            obs[key] = {"rule": "R-BOM-ORDER", "key": key, "ok": ok, "site": site, "detail": detail, "n": 1, "modes": ["<new>"]}
+    n = 0
+    for o in outs:
+        if o.kind not in ("ret", "val") or not isinstance(o.val, Enum) or o.val.variant != "Ok" or not o.val.args:
+            continue
+        lx = o.val.args[0]
+        if not isinstance(lx, Enum) or "cursor" not in lx.fields:
+            ob("new|anchor", False, "Lexer::new does not return a Lexer value LEA can inspect")
+            continue
+        n += 1
+        st = o.st
+        cur = lx.fields.get("cursor")
+        cid = getattr(cur, "id", None) if isinstance(cur, Obj) else None
+        if cid is None:
+            m = re.search(r"cursor:(\w+)", repr(cur))
+            cid = m.group(1) if m else None
+        c = st.cursors.get(cid)
+        if c is None:
+            ob("new|anchor", False, "the cursor stored in the new Lexer is not one LEA tracked (%r)" % cur)
+            continue
+        strm = I.stream_of(st, cid)
+        cons = [e for e in st.events if e.kind in ("consume", "la_consume") and e.d.get("cursor") == cid]
+        nchars = 0
+        only_bom = True
+        for e in cons:
+            chars = e.d.get("chars")
+            if chars is None:
+                nchars = 99
+                continue
+            nchars += len(chars)
+            for ch in chars:
+                cf = st.cs.get(ch.key())
+                if cf is None or cf.inc is None or set(cf.inc) != {"\ufeff"}:
+                    only_bom = False
+        widened = any(e.kind == "loop_widen" for e in st.events)
+        ok = nchars <= 1 and only_bom and not widened
+        ob("new|skips-at-most-one-bom", ok,
+           "Lexer::new skips at most one character and only a byte-order mark" if ok else
+           "Lexer::new can skip %s character(s)%s before lexing starts: text that belongs to no token (the mark is one character; "
+           "a second one is ordinary text); conditions: %s" % ("several" if nchars > 1 or widened else nchars, "" if only_bom else " that are not provably U+FEFF", "; ".join(st.conds[-3:])[:200]))
+        if nchars == 0:
+            cf0 = st.cs.get(("LA", strm, 0))
+            from . import lea_prims
+            nobom = (cf0 is not None and not cf0.possible("\ufeff")) or lea_prims.eof_known(st, strm, 0) is True
+            ob("new|bom-is-skipped", nobom, "when nothing is skipped the first character is provably not a BOM" if nobom else
+               "a path of Lexer::new skips nothing although the first character may be a BOM: the mark would become a token and shift columns")
+        # snapshots
+        final = c.pos
+        lines = [e for e in st.events if e.kind == "add_line"]
+        okl = len(lines) == 1
+        detail = "exactly one line is added"
+        if okl:
+            sp = _remaining_len_pos(lines[0].d.get("byte"))
+            okl = sp is not None and sp[1] == final
+            detail = "the first line starts at the cursor position after the skip" if okl else \
+                "the first line's byte offset is taken at position %s, the cursor ends at %d: the BOM is counted in (or missing from) the first line" % (sp, final)
+            stv = lines[0].d.get("start")
+            inner = stv.args[0] if isinstance(stv, Enum) and stv.args else stv
+            if okl and isinstance(inner, Const) and inner.t == "int" and nchars <= 1:
+                okl = inner.v == nchars
+                detail = "first line: byte offset after the skip, char offset = %d skipped" % nchars if okl else \
+                    "the first line's char offset is %r but %d character(s) were skipped" % (inner.v, nchars)
+        ob("new|first-line", okl, detail)
+        tb = lx.fields.get("cur_token_byte_offset")
+        sp = _remaining_len_pos(tb) if tb is not None else None
+        okt = sp is not None and sp[1] == final
+        ts = lx.fields.get("cur_token_start")
+        inner = ts.args[0] if isinstance(ts, Enum) and ts.args else ts
+        if okt and isinstance(inner, Const) and inner.t == "int" and nchars <= 1:
+            okt = inner.v == nchars
+        ob("new|first-token-start", okt, "the first token starts at the cursor position after the skip" if okt else
+           "cur_token_byte_offset / cur_token_start of the new Lexer (%r / %r) are not the cursor position after the skip (%d)" % (tb, ts, final))
+    if n == 0:
+        ob("new|anchor", False, "no successful path of Lexer::new found")
     return list(obs.values()), n
